@@ -1,4 +1,4 @@
 SPECIFICATION Spec
 CONSTANT L = 11
-INVARIANTS HonestAccepted Unique MalleableWithout CofactoredIsWeaker MixedShape Classified HonestKeyForgeries
+INVARIANTS HonestAccepted Unique MalleableWithout CofactoredIsWeaker MixedShape Classified HonestKeyForgeries CofOnlyRejected
 CHECK_DEADLOCK FALSE
